@@ -536,6 +536,9 @@ class MailboxSet(MailboxSetInterface[MailboxData]):
     async def rename_mailbox(self, before: str, after: str) -> None:
         if before == 'INBOX':
             raise NotSupportedError()  # TODO
+        elif after.startswith(before + self.delimiter):
+            # a directory cannot be moved below itself
+            raise NotSupportedError()
         else:
             try:
                 self._layout.get_folder(before, self.delimiter)
